@@ -120,7 +120,7 @@ def gen_cases(tier, seed):
             if rng.random() < 0.35:
                 # every allowed weight exceeds every flow value: the errors (slacks) pile up beyond the largest flow
                 mx = max(base["flow"].values()) or 1
-                c["superset"] = [(mx + rng.choice([1, 2])) if wt == "int" else float(mx + 0.5)] * rng.randint(1, 3)
+                c["superset"] = [(int(-(-mx // 1)) + rng.choice([1, 2])) if wt == "int" else float(mx + 0.5)] * rng.randint(1, 3)      # (given weights of the requested type: whole numbers for int)
         if not cyc and wt == "int" and rng.random() < 0.15 and c["superset"] is None and not node:
             c["plr"] = rng.choice([[[[0, 3], [4, 60]], [1.0, 0.5]], [[[0, 3], [4, 60]], [1.6, 1.0]], [[[0, 2], [3, 4], [5, 60]], [1.0, 1.7, 0.5]],
                                    [[[0, 60]], [0.25]], [[[0, 3], [4, 60]], [0.4, 0.3]], [[[0, 3], [4, 60]], [0.2, 1.0]]])
